@@ -222,7 +222,7 @@ def replay_oscirf(case):
                 res["evals"] += 1
                 z = complex(mi[a, l], mi[a, n + l])
                 if r == zero_region:
-                    if abs(z) > 1e-12:
+                    if not (abs(z) <= 1e-12):      # NaN-safe
                         _first(res, f"{disp}.{'AfterPulse' if pfid else 'BeforePulse'}: non-zero {'after' if pfid else 'before'} the pulse",
                                f"index {i}, oscillation '{case['labels'][l]}', t={t} ({'after' if pfid else 'before'} the pulse: centres {eff['centres']}, "
                                f"widths {eff['widths']}): cos/sin columns = {z.real!r}, {z.imag!r}; specification: 0")
@@ -249,7 +249,7 @@ def replay_oscirf(case):
         for (i, l, a, z, e) in entries:
             want = (K * e) if K is not None else 0j
             scale = max(abs(K) * zmax if K is not None else 0.0, 1e-3)
-            if abs(z - want) > 1e-9 * scale:
+            if not (abs(z - want) <= 1e-9 * scale):      # NaN-safe
                 _first(res, clause, f"index {i}, oscillation '{case['labels'][l]}', t={times[a]}: columns {z!r}; K * tail = {want!r} with K = {K!r} fixed at "
                                     f"index {big[0]}, '{case['labels'][big[1]]}', t={times[big[2]]}")
                 return res
